@@ -7,7 +7,8 @@
 (***************************************************************************)
 EXTENDS MxjMapGen, MxjMutate, Json
 CONSTANTS UpdKeys, PathNames, MaxPath, NewVals, DoEmit
-CondSets == {{}, {[k |-> "b", neg |-> FALSE, kind |-> "s", v |-> "x"]}, {[k |-> "a", neg |-> TRUE, kind |-> "star", v |-> "*"]}}
+CondSets == {{}, {[k |-> "b", neg |-> FALSE, kind |-> "s", v |-> "x"]}, {[k |-> "a", neg |-> TRUE, kind |-> "star", v |-> "*"]},
+             {[k |-> "b", neg |-> FALSE, kind |-> "b", v |-> "false"]}}       \* (a boolean condition holds for the boolean only, not for whatever else is not true)
 RECURSIVE NamePaths(_)
 NamePaths(l) == IF l = 0 THEN {<<>>}
                 ELSE LET P == NamePaths(l-1) IN P \cup {Append(p, s) : p \in {q \in P : Len(q) = l-1}, s \in PathNames}
